@@ -28,7 +28,7 @@ func c05CLI(e *Env) {
 		{"sqlite", "sqlite://%s?_fk=1"},
 		{"libsql+file", "libsql+file://%s?_fk=1"},
 	}
-	modes := [][]string{nil, {"--tx-mode", "none"}}
+	modes := [][]string{nil, {"--tx-mode", "none"}, {"--format", "{{ sql . }}"}, {"--format", "{{ json . }}", "--tx-mode", "file"}}
 	k := 0
 	for _, ed := range edits {
 		for _, fl := range flavours {
